@@ -7,7 +7,7 @@ import c01_ops as K
 from c01_ops import OPS, KINDS
 
 PROP = 'C01'
-LEAN_MODULES = ['PMV.Props.C01']
+LEAN_MODULES = ['PMV.Props.C01', 'PMV.Props.C01Routes']
 PARALLEL = True
 MANIFEST = {
     'text': 'Kernel-checked theorems (PMV/Props/C01.lean) about the code-shaped mask computation of the Lean model '
@@ -42,6 +42,13 @@ ASSUMPTIONS = ['the failure set of an operation is the mathematical domain predi
 TRUSTED_EXTRA = ['path selection table in harness/c01.py (which Lean `Path` models which operator/operand-kind combination)']
 
 SCALARS = ('S', 'Si', 'B')
+
+
+def regen():
+    """T2: regenerate PMV/Gen/C01Routes.lean (call graph + mask tokens of the operators, and the path table this
+    harness uses) from the current source; the obligations of PMV/Props/C01Routes.lean are then re-decided"""
+    import os, c01_py2lean
+    return c01_py2lean.regen(os.environ.get('PMV_REPO') or '/repo', C.LEAN)
 
 
 # ------------------------------------------------------------------ model request
@@ -140,6 +147,10 @@ def request(case):
         return tree(['un', 'ctor1', 'N', L[0]])
     if op == 'arctan2':                                    # Qube.or_(x._mask_, y._mask_)
         return tree(['bin', 'ctorOr', 'N', L[1], L[0]])
+    if op == 'rotscalar':                                  # Matrix3.__mul__: returns the Scalar itself (KF-C01-1)
+        return ['c01', 'm3mul', True, [K.opd_wire(o) for o in opds]]
+    if op in ('matvec', 'matmul') and opds[0]['k'] == 'R' and not same:
+        return ['c01', 'm3mul', False, [K.opd_wire(o) for o in opds]]
     if op in ('dot', 'cross', 'outer', 'element_mul', 'vmul', 'matvec', 'matmul', 'qmul', 'pole_rotation'):
         if same:
             return run('ctorOrSame', opds)
@@ -162,6 +173,58 @@ def request(case):
         return tree(['bin', 'divScalar', fw(0, f[1], opds, out), L[0], ['un', 'ctor1', 'N', L[0]]])
     if op == 'qrecip':                                     # conj() / norm_sq()
         return tree(['bin', 'divScalar', fw(0, f[1], opds, out), ['un', 'ctor1', 'N', L[0]], ['un', 'ctor1', 'N', L[0]]])
+    # ---- operations the source DEFINES as compositions: modelled as the same compositions (MExpr trees)
+    def unit_tree(e, shape, zero):
+        return ['bin', 'divScalar', K.fail_wire(shape, zero), e, ['un', 'ctor1', 'N', e]]
+    if op in ('perp', 'proj'):
+        a, b = opds                                        # arg.unit(); self - arg * self.dot(arg)  /  arg * self.dot(arg)
+        vb = K.values_of(b).astype(float)
+        U = unit_tree(L[1], b['shape'], np.all(vb == 0, axis=-1))
+        P = ['bin', 'ctorOr', 'N', U, ['bin', 'ctorOr', 'N', L[0], U]]
+        return tree(P if op == 'proj' else ['bin', 'ctorOr', 'N', L[0], P])
+    if op == 'ucross':                                     # self.cross(arg).unit()
+        va, vb = [np.broadcast_to(K.values_of(o).astype(float), tuple(out) + (3,)) for o in opds]
+        Cx = ['bin', 'ctorOr', 'N', L[0], L[1]]
+        return tree(unit_tree(Cx, out, np.all(np.cross(va, vb) == 0, axis=-1)))
+    if op == 'with_norm':                                  # self * (Scalar(2.) / self.norm())
+        a = opds[0]
+        va = K.values_of(a).astype(float)
+        two = ['leaf', [[], False]]
+        Q = ['bin', 'divScalar', K.fail_wire(a['shape'], np.all(va == 0, axis=-1)), two, ['un', 'ctor1', 'N', L[0]]]
+        return tree(['bin', 'ctorOr', 'N', L[0], Q])
+    if op == 'qdiv':                                       # self * arg.reciprocal();  reciprocal = conj() / norm_sq()
+        a, b = opds
+        vb = K.values_of(b).astype(float)
+        R = ['bin', 'divScalar', K.fail_wire(b['shape'], np.all(vb == 0, axis=-1)),
+             ['un', 'ctor1', 'N', L[1]], ['un', 'ctor1', 'N', L[1]]]
+        return tree(['bin', 'ctorOr', 'N', L[0], R])
+    if op == 'matpow':                                     # Qube.__pow__: repeated multiplication
+        a, e = opds
+        if e['mask'] == 'T':
+            return tree(['un', 'setTrue', 'N', L[0]])      # as_all_masked()
+        n = int(K.values_of(e))
+        if n == 0:
+            return tree(['un', 'ctor1', 'N', L[0]])        # filled(..., mask=self._mask_)
+        if n == 1:
+            return tree(L[0])
+        sq = ['bin', 'ctorOrSame' if (a['shape'] and not isinstance(a['mask'], str)) else 'ctorOr', 'N', L[0], L[0]]
+        if n == 2:
+            return tree(sq)
+        return tree(['bin', 'ctorOr', 'N', sq, L[0]])      # result *= x  (in-place matrix product)
+    if op == 'q_from_rotation':
+        # Qube.broadcast(angle, vector); half = 0.5*angle; from_parts(half.cos(), (half.sin()/vector.norm()) * vector)
+        def bleaf(o):
+            m = K.mask_wire(o)
+            if isinstance(m, bool) or list(o['shape']) == out or (m and m[0] == 'V'):
+                return ['leaf', [out, m]]
+            return ['leaf', [out, ['V', list(o['shape']), m]]]
+        a, b = opds
+        A, V = bleaf(a), bleaf(b)
+        vb = np.broadcast_to(K.values_of(b).astype(float), tuple(out) + (3,))
+        half = ['un', 'cloneSet', 'N', A]
+        S = ['bin', 'divScalar', K.fail_wire(out, np.all(vb == 0, axis=-1)), ['un', 'ctor1', 'N', half],
+             ['un', 'ctor1', 'N', V]]
+        return tree(['bin', 'ctorOr', 'N', ['un', 'ctor1', 'N', half], ['bin', 'ctorOr', 'N', V, S]])
     if op in ('m3_from_euler', 'q_from_euler'):
         # Qube.broadcast first: every array mask becomes a broadcast view of the common shape; 'rzxz' swaps ai, ak
         def bview(o):
